@@ -181,10 +181,13 @@ def mentions(nodes, env, short_ns):
                 # e.g. ZONE="" -> zoneinfo rejects the empty key with a plain ValueError
                 add(fn, [z] if z else [], not z)
     n = nodes.get("/etc/localtime")
-    if n and n[0] == "l" and _file(nodes, "/etc/localtime") is not None:     # a dangling link is no source
+    if n and n[0] == "l":
         z = _suffix_zone(_resolve(nodes, "/etc/localtime"))
-        if z:
+        if z and _file(nodes, "/etc/localtime") is not None:     # a dangling link is no source ...
             add("localtime-link", [z])
+        elif z:
+            # ... unless isfile() was answered in another state of the epoch (non-atomic reads)
+            out["dangling-link-name"] = ([z], False)
     for fn in ("/etc/localtime", "/usr/local/etc/localtime"):
         data = _file(nodes, fn)
         if data is not None:
@@ -223,13 +226,23 @@ def admissible_local(run, rec):
     # epoch each source may have been seen in any of them.  The documented default (UTC) is
     # reachable iff every source was empty in at least one state.
     can_be_empty = {}
+    dangling, link_usable_somewhere = [], False
     for nodes, env in states:
         for src, (z, mr) in mentions(nodes, env, shorts).items():
+            if src == "dangling-link-name":
+                dangling += z
+                continue
+            if src == "localtime-link" and z:
+                link_usable_somewhere = True
             may_raise |= mr
             can_be_empty[src] = can_be_empty.get(src, False) or not z
             for x in z:
                 if x not in zones:
                     zones.append(x)
+    if link_usable_somewhere:
+        for x in dangling:
+            if x not in zones:
+                zones.append(x)
     if all(can_be_empty.values()) and "UTC" not in zones:
         zones.append("UTC")
     return zones, may_raise
